@@ -386,6 +386,13 @@ class Exec:
             # method?
             m = self.tr.find_method(self.module, base.cls, e.attr)
             if m is not None:
+                decos = [ast.unparse(d) for d in m[1].decorator_list]
+                if any("cache" in d for d in decos):
+                    # a memoised value depends on the object's history, which this pure translation does not carry: fail closed
+                    raise Untranslatable(f"{base.cls}.{e.attr} is memoised ({', '.join(decos)})", e)
+                if "property" in decos:      # a plain property is a parameterless method evaluated at the access
+                    fake = ast.copy_location(ast.Call(func=e, args=[], keywords=[]), e)
+                    return self.run_method(base, base.cls, e.attr, fake)
                 return ("method", base, e.attr)
             raise Untranslatable(f"unknown attribute {e.attr} on {base.cls}", e)
         if isinstance(base, ModV):
@@ -627,6 +634,8 @@ class Exec:
         if m is None:
             raise Untranslatable(f"method {cls}.{name} not found", e)
         mcls, fn = m
+        if any("cache" in ast.unparse(d) for d in fn.decorator_list):
+            raise Untranslatable(f"{cls}.{name} is memoised", e)
         params = [a.arg for a in fn.args.args][1:]
         defaults = fn.args.defaults
         env = {"self": obj}
